@@ -109,6 +109,26 @@ theorem skip_while_natural (lag : Bool) (ρ : α → α') (p : α → Except Err
     visible ((skipWhileOp p').run lag (mapN ρ raw)) = mapN ρ (visible ((skipWhileOp p).run lag raw)) := by
   rw [C05.skip_while_eq, C05.skip_while_eq]; simp [refSkipWhile_natural ρ p p' hp]
 
+theorem take_while_indexed_natural (lag : Bool) (ρ : α → α') (p : α → Nat → Except Err Bool)
+    (p' : α' → Nat → Except Err Bool) (hp : ∀ x i, p' (ρ x) i = p x i) (incl : Bool) (raw : List (Notif α)) :
+    visible ((takeWhileIndexedOp p' incl).run lag (mapN ρ raw))
+      = mapN ρ (visible ((takeWhileIndexedOp p incl).run lag raw)) := by
+  rw [C05.take_while_indexed_eq, C05.take_while_indexed_eq]; simp [refTakeWhileIdx_natural ρ p p' hp]
+
+theorem skip_while_indexed_natural (lag : Bool) (ρ : α → α') (p : α → Nat → Except Err Bool)
+    (p' : α' → Nat → Except Err Bool) (hp : ∀ x i, p' (ρ x) i = p x i) (raw : List (Notif α)) :
+    visible ((skipWhileIndexedOp p').run lag (mapN ρ raw)) = mapN ρ (visible ((skipWhileIndexedOp p).run lag raw)) := by
+  rw [C05.skip_while_indexed_eq, C05.skip_while_indexed_eq]; simp [refSkipWhileIdx_natural ρ p p' hp]
+
+/-- `dematerialize`: renaming the values inside the notification objects renames the output -/
+theorem dematerialize_natural (lag : Bool) (ρ : α → α') (raw : List (Notif (Notif α))) :
+    visible ((dematerializeOp (α := α')).run lag (mapN (Notif.map ρ) raw))
+      = mapN ρ (visible ((dematerializeOp (α := α)).run lag raw)) := by
+  rw [C05.dematerialize_eq, C05.dematerialize_eq, ← cut_mapN]
+  congr 1
+  simp only [elems_mapN, fin_mapN]
+  cases fin raw <;> simp [mapN, End.toNotifs, Notif.map]
+
 /-- `distinct`: keys renamed by `τ`, comparer transported along `τ` -/
 theorem distinct_natural (lag : Bool) (ρ : α → α') (τ : κ → κ') (key : α → Except Err κ) (key' : α' → Except Err κ')
     (cmp : κ → κ → Except Err Bool) (cmp' : κ' → κ' → Except Err Bool)
